@@ -176,6 +176,53 @@ theorem pySplit_spec : ∀ (n : Nat) (s : Bytes), s.length ≤ n → pySplit s =
 
 theorem pySplit_eq_spec (s : Bytes) : pySplit s = splitSpec pySpace s := pySplit_spec _ s (Nat.le_refl _)
 
+/-! ### `query`'s reader refines the spec on a line -/
+
+theorem queryWords_eq (p : Nat → Bool) (s : Bytes) :
+    queryWords p s = match readWordSameLine p s with
+      | none => []
+      | some (w, r) => w :: queryWords p r := by
+  rw [queryWords]
+  split <;> simp_all
+
+/-- on a line (no `'\n'` before its end) `query` sees exactly the maximal delimiter-free runs -/
+theorem queryWords_spec (p : Nat → Bool) : ∀ (n : Nat) (s : Bytes), s.length ≤ n → 10 ∉ s →
+    queryWords p s = splitSpec p s := by
+  intro n
+  induction n with
+  | zero =>
+    intro s h _
+    have : s = [] := List.eq_nil_of_length_eq_zero (by omega)
+    subst this
+    rw [queryWords_eq]; simp [readWordSameLine, splitSpec_nil]
+  | succ n ih =>
+    intro s h h10
+    cases s with
+    | nil => rw [queryWords_eq]; simp [readWordSameLine, splitSpec_nil]
+    | cons b bs =>
+      have hb10 : (b == 10) = false := by
+        have : b ≠ 10 := by intro e; subst e; simp at h10
+        simpa using this
+      have hbs10 : 10 ∉ bs := fun hm => h10 (List.mem_cons_of_mem _ hm)
+      by_cases hb : p b
+      · have e : queryWords p (b :: bs) = queryWords p bs := by
+          rw [queryWords_eq p (b :: bs), queryWords_eq p bs]
+          simp [readWordSameLine, hb, hb10]
+        rw [e, splitSpec_cons_delim p b bs hb]
+        exact ih bs (by simp at h; omega) hbs10
+      · have hbf : p b = false := by simpa using hb
+        rw [queryWords_eq, splitSpec_cons_word p b bs hbf]
+        simp only [readWordSameLine, hbf, Bool.false_eq_true, if_false, List.takeWhile, List.dropWhile, Bool.not_false]
+        have hl := length_dropWhile_le (fun c => !p c) bs
+        have h10' : 10 ∉ bs.dropWhile (fun c => !p c) := by
+          intro hm
+          exact hbs10 ((List.dropWhile_suffix _).subset hm)
+        rw [ih _ (by simp at h; omega) h10']
+
+
+theorem queryWords_eq_spec (p : Nat → Bool) (s : Bytes) (h : 10 ∉ s) : queryWords p s = splitSpec p s :=
+  queryWords_spec p _ s (Nat.le_refl _) h
+
 /-! ### structure of the spec: tokens are non-empty, delimiter-free, and concatenate to the non-delimiters -/
 
 theorem pieces_flatten (p : Nat → Bool) (s : Bytes) : (pieces p s).flatten = s.filter (fun c => !p c) := by
